@@ -26,7 +26,14 @@ var namedComposite = []string{"c10types.Inner", "c10types.Point", "c10types.Tags
 
 var fieldNames = []string{"A", "B", "C", "Z", "M", "P", "Name", "Value", "X1", "Ptr", "Items"}
 
-var strPool = []string{"", "x", "a\"b", "line\nbreak", "back`tick", "\xff\xfe", "é世", "tab\t", "\x00", " ", `\`, "'", "a b", "%v", "@x", "\xc3", "日本語\x80"}
+var strPool = []string{"", "x", "a\"b", "line\nbreak", "back`tick", "\xff\xfe", "é世", "tab\t", "\x00", "\u2028", `\`, "'", "a b", "%v", "@x", "\xc3", "日本語\x80",
+	"\r", "\ufeff", "a\r\nb", "\n", "\n\r", "a\nb\x00", "\ufeffa\n", "a\n`b\r", "l1\nl2\n", "\u2028\n", "\n\x7f", "\n\xff", "\n\\n\"", "\n\t\v\f\x1b", "\n\u00a0\u200b\U0001F600"}
+
+// the characters that decide which literal forms can hold a string: a raw string literal drops every CR and cannot
+// hold a backquote, NUL and U+FEFF are not legal in Go source at all, an interpreted literal cannot hold a raw newline
+// or an unescaped quote/backslash; invalid UTF-8, controls, Unicode line separators and non-printables have to be escaped
+var strHostile = []string{"\n", "\n", "\n", "\r", "\r", "\r\n", "\x00", "\ufeff", "`", "\"", "\\", "'", "\t", "\v", "\f", "\x1b", "\x7f",
+	"\x80", "\xff", "\xc3", "\u0085", "\u2028", "\u2029", "\u00a0", "\u200b", "\ufffd", "\U0001F600", "é", "世", "a", "b", " ", "\\n", "\\r", "${x}", "*/", "//"}
 
 var runePool = []int64{'a', '\'', '\\', 0x7f, 0x20, 0x7e, 233, 0x10FFFF, -1, '\n', 0, '"', 'Z', 0xD800, 65533}
 
@@ -152,8 +159,24 @@ func zeroVal(t *TypeJ) ValJ {
 }
 
 func (g *gen) str() string {
-	if g.r.Chance(70) {
+	if g.r.Chance(50) {
 		return core.Pick(g.r, strPool)
+	}
+	if g.r.Chance(60) {
+		// text of several "lines": pieces of the hostile alphabet, at least one line break in most of them
+		n := 2 + g.r.Intn(5)
+		s := ""
+		for i := 0; i < n; i++ {
+			s += core.Pick(g.r, strHostile)
+		}
+		if g.r.Chance(70) {
+			k := g.r.Intn(len(s) + 1)
+			for k > 0 && k < len(s) && s[k]&0xc0 == 0x80 { // not inside a multi-byte character
+				k--
+			}
+			s = s[:k] + "\n" + s[k:]
+		}
+		return s
 	}
 	n := g.r.Intn(6)
 	b := make([]byte, n)
@@ -345,7 +368,20 @@ func corner() []json.RawMessage {
 	add("runes", sliceT(sc("int32")), lval(ival('a'), ival('\''), ival('\\'), ival(233), ival(127), ival(-1)))
 	add("named rune-like", sliceT(nm("c10types.Code")), lval(ival('a'), ival(0)))
 	add("pointer to rune", ptrT(sc("int32")), pval(ival('x')))
-	add("strings", sliceT(sc("string")), lval(sval("a\"b\n`"), sval("\xff"), sval(" "), sval("")))
+	add("strings", sliceT(sc("string")), lval(sval("a\"b\n`"), sval("\xff"), sval("\u2028"), sval("")))
+	// every form of string literal has characters it cannot hold: raw strings drop CR and cannot hold a backquote, NUL and
+	// the byte order mark are not legal source characters, interpreted strings need escapes for newlines, quotes, controls
+	ml := []string{"a\r\nb", "a\rb\n", "\n\x00", "\ufeff\n", "a\nb", "a\n`b", "a\r\n`", "\n\xff", "\r", "\x00", "\ufeff", "\u2028\n", "l1\nl2\n"}
+	var mlv []ValJ
+	var mlm [][2]ValJ
+	for i, s := range ml {
+		mlv = append(mlv, sval(s))
+		mlm = append(mlm, [2]ValJ{sval(s), sval(ml[len(ml)-1-i])})
+	}
+	add("multi-line strings, CR / NUL / BOM / backquote mixes", sliceT(sc("string")), ValJ{L: mlv})
+	add("multi-line strings as map keys and values", mapT(sc("string"), sc("string")), ValJ{M: mlm})
+	add("multi-line strings in fields, named and behind a pointer", structT(fld("A", sc("string")), fld("B", nm("c10types.Name")), fld("P", ptrT(sc("string")))),
+		lval(sval("windows\r\nline endings\r\n"), sval("nul\x00\n"), pval(sval("\ufeffbom\n"))))
 	add("extreme integers", structT(fld("A", sc("int64")), fld("B", sc("uint64")), fld("C", sc("int8"))),
 		lval(ival(math.MinInt64), uval(math.MaxUint64), ival(-128)))
 	add("map with int keys", mapT(sc("int"), sc("string")), ValJ{M: [][2]ValJ{{ival(10), sval("a")}, {ival(9), sval("b")}, {ival(-1), sval("c")}}})
